@@ -334,8 +334,8 @@ theorem capSplit_take (s : List Rat) (n : Nat) (mb : Option Nat) (_hs : s ≠ []
         simp [h1, h0, this]
 
 /-- The kept vector for a prefix of length `k`. -/
-def keptOf (s : List Rat) (renorm : Bool) (k : Nat) : Kept :=
-  if renorm then renormalise s (s.take k) else .vals (s.take k)
+def keptOf (s : List Rat) (renorm : Bool) (k : Nat) : List Rat :=
+  if renorm then renormalise s (s.take k) else s.take k
 
 /-- Length of the kept prefix. -/
 def keptLen (s : List Rat) (p : Params) (hs : s ≠ []) : Nat :=
@@ -418,20 +418,18 @@ theorem sum_map_mul (c : Rat) (l : List Rat) : (l.map (c * ·)).sum = c * l.sum 
   | cons a t ih => simp [ih, Rat.mul_add]
 
 theorem renormalise_pos (s : List Rat) (k : Nat) (hpos : 0 < (s.take k).sum) :
-    renormalise s (s.take k) = .vals ((s.take k).map (renormFactor s k * ·)) := by
+    renormalise s (s.take k) = (s.take k).map (renormFactor s k * ·) := by
   have hne : (s.take k).sum ≠ 0 := by grind
   unfold renormalise renormFactor
   simp only [hne, if_false]
-  congr 1
   apply List.map_congr_left
   intro x _
   simp only [Rat.div_def]
   grind
 
-theorem renormalise_zero (s : List Rat) (k : Nat) (hk : k ≤ s.length) (hz : (s.take k).sum = 0) :
-    renormalise s (s.take k) = .nans k := by
+theorem renormalise_zero (s newS : List Rat) (hz : newS.sum = 0) : renormalise s newS = newS := by
   unfold renormalise
-  simp [hz]; omega
+  simp [hz]
 
 theorem renormFactor_ge_one (s : List Rat) (hnn : NonNeg s) (k : Nat) (hpos : 0 < (s.take k).sum) :
     1 ≤ renormFactor s k := by
@@ -453,12 +451,24 @@ theorem keptOf_length (s : List Rat) (renorm : Bool) (k : Nat) (hk : k ≤ s.len
     (keptOf s renorm k).length = k := by
   unfold keptOf renormalise
   cases renorm
-  · simp [Kept.length]; omega
+  · simp; omega
   · simp only [if_true]
     by_cases hz : (s.take k).sum = 0
-    · simp [hz, Kept.length]; omega
-    · simp [hz, Kept.length]; omega
+    · simp [hz]; omega
+    · simp [hz]; omega
 
 theorem rat_lt_of_lt_of_le {a b c : Rat} (h1 : a < b) (h2 : b ≤ c) : a < c := by grind
+
+theorem all_zero_of_head_zero (s : List Rat) (hs : s ≠ []) (hnn : NonNeg s) (hd : Desc s)
+    (h0 : s.head hs = 0) : ∀ x ∈ s, x = 0 := by
+  intro x hx
+  have h1 := desc_le_head s hs hd x hx
+  have h2 := hnn x hx
+  grind
+
+theorem sum_zero_of_head_zero (s : List Rat) (hs : s ≠ []) (hnn : NonNeg s) (hd : Desc s)
+    (h0 : s.head hs = 0) : s.sum = 0 := by
+  have := sum_take_zero s hs hnn hd h0 s.length
+  simpa using this
 
 end Ptn.C10
